@@ -54,6 +54,11 @@ CLAIMED = {
         text="Unbounded theorems: for every hermetic tool semantics, every well-formed graph (unique outputs, acyclic) and every schedule that runs each edge once after the producers of its inputs, every file ends with the same content, and that content is a fixed point of its edge; config.load's source list depends only on the set of arguments. Tie: the build.ninja the real driver writes is parsed (fail-closed), topologically sorted and checked by the model's wf_graph inside Coq, every write_font edge must declare config/fea/glyphmap/part file; each build step is traced with strace and may only read files its edge transitively declares (the hermeticity hypothesis). End to end: real CLI builds of generated source sets in vector, OT-SVG and bitmap formats under reversed/shuffled/duplicated argv, up to ten PYTHONHASHSEEDs, ninja -j1/-j16, other cwd and build directory: font sha256 and all intermediates (except the parts files the property excludes) must coincide.",
         ref="DESIGN.md 8 C08",
     ),
+    "C09": dict(
+        technique="machine-checked proof in Coq (invariant over all histories of a ninja model: convergence of a fault-free invocation to the clean build under two side conditions, both shown necessary by machine-checked counter-histories; failure propagation) + ninja's dry run against the model's dirtiness rule by vm_compute + real CLI histories with faults injected from outside",
+        text="Model: files with mtimes, ninja's log (command, recorded start time), user operations (edit with fresh mtime, remove, rename keeping the mtime) and an invocation over an arbitrary graph in which every dirty step may run, fail, be killed after a truncated write or not start. Unbounded theorem (any tool semantics, any history): if renames are honest about time and truncating kills hit only steps whose logged result is already invalidated or absent, then after one further invocation in which every step succeeds every output equals its tool applied to the final inputs, i.e. the value of a clean build (uniqueness of the edge equations); success is reported iff no reached step failed/was killed/was skipped, and such a step writes no log entry; a rewritten config dirties its readers. Both side conditions are necessary: machine-checked histories (older-mtime rename = F7; truncated output whose command line reverts = F17) end stale with exit 0 - both reproduced on the real CLI and recorded as known findings. The dirtiness rule is tied to the installed ninja by evaluating it in Coq on the states of real histories against `ninja -n -v`; the graph conditions the theorem needs (every input named by the command line/response file, outputs disjoint from sources, acyclic, unique outputs) are checked on every build.ninja the driver writes. End to end: random and directed histories over {add, modify, rename, rename-over, remove; change format, metrics, reuse, clip, bitmap options} with faults at nodes of the current graph (picosvg, resvg, pngquant via PATH shims; every python -m step and the driver via sitecustomize: exit non-zero, truncate-and-SIGKILL, driver killed before/while writing build.ninja); faulty invocations must exit non-zero; the final font is compared byte for byte with a clean build; a mismatch is attributed to a known finding only if the root stale file is exactly the truncated output (F17) or reads a source replaced by an older file (F7). Partial: OS/file-system behaviour (timestamp granularity, crashes of the machine) and ninja itself are outside the model.",
+        ref="DESIGN.md 8 C09",
+    ),
     "C10": dict(
         technique="machine-checked proof in Coq (round-trip theorems for the csv dialect pair, the %04x codec and GlyphMapping rows, with refutation witnesses for the side conditions) + correspondence by vm_compute + field-coverage table from the source",
         text="Unbounded theorems: read_text(write_rows rs) = rs for all rows whose fields have no CR/LF and no unquoted leading space (both conditions shown necessary by machine-checked counter-examples = known finding F4); parse_hex(hex04 n) = n for every n; parse_row(csv_row g) = g for every GlyphMapping incl. the empty codepoint list. The csv model (a state machine) is tied to Python's csv module and to glyphmap.csv_line/load_from by evaluating it in Coq on random rows and arbitrary text. Config precedence and write/load symmetry are exercised for every FontConfig field x {neither,file,flag,both} with real absl flags; a table extracted from config.py's ast requires every field to be written, read, flagged and passed on. File-name recovery, glyph-name legality/distinctness (known finding F3), parts JSON and response files are checked on samples.",
